@@ -42,7 +42,26 @@ type script struct {
 	CT     string      `json:"ct,omitempty"`
 	Body   vev.B       `json:"body,omitempty"`
 	Hdr    [][2]string `json:"hdr,omitempty"`
+	// BodyFail: reading the response body delivers this many bytes and then fails (a connection that breaks in the
+	// middle of a response whose head has arrived) - after C14-s13
+	BodyFail *int   `json:"body_fail,omitempty"`
+	BodyErr  string `json:"body_err,omitempty"` // unexpected-eof | reset
 }
+
+type brokenBody struct {
+	data []byte
+	err  error
+}
+
+func (b *brokenBody) Read(p []byte) (int, error) {
+	if len(b.data) == 0 {
+		return 0, b.err
+	}
+	n := copy(p, b.data)
+	b.data = b.data[n:]
+	return n, nil
+}
+func (b *brokenBody) Close() error { return nil }
 
 type fake struct{ s script }
 
@@ -59,6 +78,14 @@ func (f *fake) Do(req *http.Request) (*http.Response, error) {
 		h.Add(kv[0], kv[1])
 	}
 	b := []byte(f.s.Body)
+	if k := f.s.BodyFail; k != nil && *k < len(b) {
+		err := io.ErrUnexpectedEOF
+		if f.s.BodyErr == "reset" {
+			err = fmt.Errorf("read tcp 192.0.2.1:443: connection reset by peer")
+		}
+		return &http.Response{StatusCode: f.s.Status, Status: fmt.Sprintf("%d %s", f.s.Status, http.StatusText(f.s.Status)), Proto: "HTTP/1.1", ProtoMajor: 1, ProtoMinor: 1,
+			Header: h, Body: &brokenBody{data: b[:*k], err: err}, ContentLength: int64(len(b)), Request: req}, nil
+	}
 	return &http.Response{StatusCode: f.s.Status, Status: fmt.Sprintf("%d %s", f.s.Status, http.StatusText(f.s.Status)), Proto: "HTTP/1.1", ProtoMajor: 1, ProtoMinor: 1,
 		Header: h, Body: io.NopCloser(bytes.NewReader(b)), ContentLength: int64(len(b)), Request: req}, nil
 }
@@ -533,6 +560,10 @@ func evaluate(c Case) (o vev.Outcome, err error) {
 	if r.pan != nil {
 		return dev(m.name+"|panic", "%s panicked on status %d body %.200q: %v", m.name, s.Status, string(s.Body), r.pan), nil
 	}
+	broken := s.BodyFail != nil && *s.BodyFail < len(s.Body)
+	if broken {
+		rec.Count("response-body-breaks-off", 1)
+	}
 	// MUST-fail: not 2xx
 	if !success(s.Status) {
 		if r.err == nil {
@@ -542,7 +573,7 @@ func evaluate(c Case) (o vev.Outcome, err error) {
 		if !errors.As(r.err, &he) || he.Code != s.Status {
 			return dev(m.name+"|status-not-carried", "%s: status %d, error %q does not carry it (HTTPError %+v)", m.name, s.Status, r.err, he), nil
 		}
-		if len(c.ErrDoc) > 0 && isXML(s.CT) {
+		if len(c.ErrDoc) > 0 && isXML(s.CT) && !broken {
 			var de *internal.Error
 			if !errors.As(r.err, &de) {
 				return dev(m.name+"|dav-error-lost", "%s: status %d with a DAV:error body, but the error %q exposes no *internal.Error", m.name, s.Status, r.err), nil
@@ -572,6 +603,13 @@ func evaluate(c Case) (o vev.Outcome, err error) {
 		if c.Doc == nil {
 			return vev.Outcome{}, nil
 		}
+		if broken {
+			// a multi-status that breaks off before its root element closes cannot be interpreted
+			if *s.BodyFail < len(strings.TrimRight(string(s.Body), " \t\r\n")) && r.err == nil {
+				return dev(m.name+"|broken-off-multistatus-accepted", "%s returned %s without error although the body broke off after %d of %d bytes", m.name, mustJSON(r.v), *s.BodyFail, len(s.Body)), nil
+			}
+			return vev.Outcome{}, nil
+		}
 		v, why := docVerdict(m, *c.Doc, rendered)
 		rec.Count([]string{"verdict/dont-care", "verdict/must-fail", "verdict/must-succeed"}[v], 1)
 		switch v {
@@ -592,6 +630,9 @@ func evaluate(c Case) (o vev.Outcome, err error) {
 		return vev.Outcome{}, nil
 	}
 	// plain 2xx methods
+	if broken {
+		return vev.Outcome{}, nil // whether the call needs the body at all is the method's business: no panic, no hang
+	}
 	switch m.name {
 	case "webdav.RemoveAll", "webdav.Mkdir", "webdav.Copy", "webdav.Move", "webdav.Create":
 		if r.err != nil {
@@ -885,6 +926,14 @@ func TestStatusMatrix(t *testing.T) {
 					c.ErrPad = []int{0, 2000, 100000}[(code/3)%3]
 				}
 				run(t, nil, c, fmt.Sprintf("matrix/%dxx", code/100))
+				if k > 0 {
+					// the same response breaking off at the very start, and after a few bytes, of its body
+					for j, cut := range []int{0, 7} {
+						cut := cut
+						c.Script.BodyFail, c.Script.BodyErr = &cut, []string{"unexpected-eof", "reset"}[j]
+						run(t, nil, c, fmt.Sprintf("matrix-broken-body/%dxx", code/100))
+					}
+				}
 			}
 		}
 	}
@@ -958,6 +1007,10 @@ func TestDocuments(t *testing.T) {
 		if rapid.IntRange(0, 9).Draw(rt, "otherstatus") == 0 {
 			c.Script.Status = rapid.SampledFrom([]int{200, 201, 204, 206, 404, 500}).Draw(rt, "st")
 		}
+		if rapid.IntRange(0, 6).Draw(rt, "breaks") == 0 {
+			k := rapid.IntRange(0, len(c.Doc.render())).Draw(rt, "breaks-at")
+			c.Script.BodyFail, c.Script.BodyErr = &k, rapid.SampledFrom([]string{"unexpected-eof", "reset"}).Draw(rt, "breaks-how")
+		}
 		run(t, rt, c, "doc/"+m.name)
 	})
 }
@@ -986,6 +1039,10 @@ func TestArbitraryResponses(t *testing.T) {
 			c.Script.CT = rapid.SampledFrom([]string{"application/xml", "text/xml; charset=utf-8", "Application/XML", "TEXT/XML; charset=\"utf-8\"", "application/XML;charset=UTF-8"}).Draw(rt, "errct")
 			c.ErrDoc = rapid.SliceOfN(rapid.SampledFrom([]string{vdav.NSCal + " no-uid-conflict", vdav.NSCard + " valid-address-data", vdav.NSDAV + " lock-token-submitted", "urn:x custom"}), 1, 3).Draw(rt, "conds")
 			c.ErrPad = rapid.SampledFrom([]int{0, 0, 0, 900, 1100, 5000, 70000}).Draw(rt, "errpad")
+		}
+		if rapid.IntRange(0, 4).Draw(rt, "breaks") == 0 {
+			k := rapid.SampledFrom([]int{0, 1, 10, 100, 500, 1023, 1024, 1025, 5000}).Draw(rt, "breaks-at")
+			c.Script.BodyFail, c.Script.BodyErr = &k, rapid.SampledFrom([]string{"unexpected-eof", "reset"}).Draw(rt, "breaks-how")
 		}
 		run(t, rt, c, fmt.Sprintf("arbitrary/%dxx", c.Script.Status/100))
 	})
